@@ -106,6 +106,11 @@ DIRECTED_PROGRAMS = [
     ("all-params", "def 0 {\n    a(1, -2, 1.5, CONST_A, $VAR, \"s\", {english=\"e\", german=\"g\"}, Position<'m', 1, 2.5>);\n    end;\n}\n"),
     ("switch", "def 0 {\n    switch ($V) {\n        case 1:\n            a();\n            break;\n        default:\n            b();\n    }\n    end;\n}\n"),
     ("straight", "def 0 {\n    a();\n    b();\n    return;\n}\n"),
+    # a jump into a LATER routine whose target lies behind an op the compiler dropped (gap in the internal offsets before the target)
+    ("dropped-jump-then-forward-cross-routine-jump", "def 0 {\n    first();\n    jump @next;\n    §next;\n    second();\n    if ($FLAG == 1) {\n        inside_if();\n    }\n    jump @shared;\n}\ndef 1 {\n    skipped();\n    §shared;\n    target();\n    tail();\n    return;\n}\n"),
+    ("cross-routine-call-and-branch-with-gaps", "def 0 {\n    if (debug) {\n        a();\n    }\n    call @sub;\n    if (edit) {\n        jump @far;\n    }\n    b();\n    end;\n}\ndef 1 {\n    if (variation) {\n        c();\n    }\n    §far;\n    d();\n    §sub;\n    e();\n    return;\n}\n"),
+    # dungeon modes written as numbers: the decompile command prints 0..3 with the constants of its settings, each with its own
+    ("dungeon-modes-as-numbers", "def 0 {\n    dungeon_mode(5) = 1;\n    dungeon_mode(6) = 0;\n    dungeon_mode(7) = 2;\n    dungeon_mode(8) = 3;\n    switch (dungeon_mode(3)) {\n        case 0:\n            a();\n            break;\n        case 1:\n            b();\n            break;\n        case 2:\n            c();\n            break;\n        case 3:\n            d();\n            break;\n    }\n    end;\n}\n"),
 ]
 
 FAIL_PROGRAMS = [
